@@ -23,9 +23,9 @@
 #include <frg/intrusive.hpp>
 #include <frg/allocation.hpp>
 #include <frg/list.hpp>
-#define atomic verif_atomic
+#include "../engine/verif_atomic_begin.hpp"
 #include <frg/qs.hpp>
-#undef atomic
+#include "../engine/verif_atomic_end.hpp"
 #include "../engine/verif.hpp"
 
 const char *verif_harness = "qs_conc";
